@@ -35,7 +35,7 @@ RULE = (
     "rule-based machines over one model folder (M.mo [+ MBase.mo, Other.mo]) and one library "
     "folder (Lib1.mo, sub/Lib2.mo [+ sub/deep/Lib3.mo, Extra.mo, sub/Unused.mo]); steps = init "
     "(drawn option set / version / file variants), rewrite(file, variant), add(file, variant), "
-    "option(key, toggled value), version(v), transfer(cache|codegen); one evaluation = one "
+    "option(key, toggled value), option_value(eliminable_variable_expression, None or one of 3 patterns), version(v), transfer(cache|codegen); one evaluation = one "
     "transfer compared with a cache-free compile of the current sources.  non-trivial = the "
     "transfer found a cache file written by an earlier transfer of the same history and at least "
     "one edit/addition/option/version/mode change happened since that file was written (a stale "
@@ -80,6 +80,7 @@ OPTION_KEYS = [
     "unroll_loops",
     "inline_functions",
 ]
+REGEXES = [None, "s", "a[.]y", "s|a[.]y"]  # values of eliminable_variable_expression (s and a.y are algebraic variables of M)
 VERSIONS = ["1.0", "1.1", "2.0"]
 MODES = ("cache", "codegen")
 
@@ -480,6 +481,15 @@ class Sim:
             self.opts[k] = bool(val)
             self.since_transfer.add("option")
             return None
+        if kind == "option_value":
+            # a string-valued option: which variables simplify() eliminates (needs expand_mx, kept on from here)
+            _, k, val = step
+            if k != "eliminable_variable_expression" or val not in REGEXES:
+                raise env.HarnessError("option value %r=%r is not in the domain" % (k, val))
+            self.opts[k] = val
+            self.opts["expand_mx"] = True
+            self.since_transfer.add("option")
+            return None
         if kind == "version":
             self.version = step[1]
             env.pin_version(self.version)
@@ -686,6 +696,17 @@ def make_machine(ctx, memo, budget):
                 return
             cur = self.sim.opts.get(k, self.sim._default(k))
             self._do(["option", k, not cur])
+            if then_transfer:
+                self._transfer("cache")
+
+        @rule(val=st.sampled_from(REGEXES), then_transfer=st.booleans())
+        def set_regex(self, val, then_transfer):
+            """eliminable_variable_expression: None or one of three patterns (two non-empty ones differ)."""
+            if self.dead:
+                return
+            if val == self.sim.opts.get("eliminable_variable_expression"):
+                val = REGEXES[(REGEXES.index(val) + 1) % len(REGEXES)]
+            self._do(["option_value", "eliminable_variable_expression", val])
             if then_transfer:
                 self._transfer("cache")
 
